@@ -26,10 +26,12 @@ type clientConfigSessionHandler struct {
 	player *connectedPlayer
 	log    logr.Logger
 
-	configSwitchDone future.Future[any]
-
 	mu struct {
 		sync.Mutex
+		// configSwitchDone completes when the client acknowledged the end of the
+		// current configuration phase. It is renewed every time the client (re)enters
+		// the configuration state, see Activated.
+		configSwitchDone         *future.Future[any]
 		pluginMessages           deque.Deque[*plugin.Message]
 		pluginMessagesBytes      int
 		pluginMessagesOverflowed bool
@@ -44,10 +46,27 @@ type clientConfigSessionHandler struct {
 func newClientConfigSessionHandler(
 	player *connectedPlayer,
 ) *clientConfigSessionHandler {
-	return &clientConfigSessionHandler{
+	h := &clientConfigSessionHandler{
 		player: player,
 		log:    player.log.WithName("clientConfigSessionHandler"),
 	}
+	h.mu.configSwitchDone = future.New[any]()
+	return h
+}
+
+// Activated is called every time the client enters the configuration state. The handler is
+// reused for every reconfiguration (server switch), so the future of the previous
+// configuration phase, which is already completed, must not be handed out again.
+func (h *clientConfigSessionHandler) Activated() {
+	h.mu.Lock()
+	h.mu.configSwitchDone = future.New[any]()
+	h.mu.Unlock()
+}
+
+func (h *clientConfigSessionHandler) switchDone() *future.Future[any] {
+	h.mu.Lock()
+	defer h.mu.Unlock()
+	return h.mu.configSwitchDone
 }
 
 // Disconnected is called when the player disconnects.
@@ -71,7 +90,7 @@ func (h *clientConfigSessionHandler) HandlePacket(pc *proto.PacketContext) {
 		}
 	case *config.FinishedUpdate:
 		h.player.SetActiveSessionHandler(state.Play, newClientPlaySessionHandler(h.player))
-		h.configSwitchDone.Complete(nil)
+		h.switchDone().Complete(nil)
 	case *plugin.Message:
 		h.handlePluginMessage(p)
 	case *packet.PingIdentify:
@@ -106,7 +125,7 @@ func (h *clientConfigSessionHandler) handleBackendFinishUpdate(serverConn *serve
 	}
 	h.player.SetOutboundState(state.Play)
 
-	return &h.configSwitchDone
+	return h.switchDone()
 }
 
 func handleResourcePackResponse(p *packet.ResourcePackResponse, handler resourcepack.Handler, log logr.Logger) bool {
